@@ -573,7 +573,12 @@ func (c *Compiler) writeNodeDEQ(node, parent *node, recv, path, lv, rv string, d
 		if (node.typ == typeBasic || (node.typ == typeSlice && node.typn == "[]byte")) && len(node.name) > 0 {
 			plv, prv = lv+"."+node.name, rv+"."+node.name
 		}
-		c.wl("if (", plv, "==nil && ", prv, "!=nil) || (", plv, "!=nil && ", prv, "==nil) {return false}")
+		if deqMustSkipByTypeAndPath {
+			// An excluded field must not decide the result, its nil-ness included.
+			c.wl("if ((", plv, "==nil && ", prv, "!=nil) || (", plv, "!=nil && ", prv, "==nil)) && inspector.DEQMustCheck(\"", path, "\",opts) {return false}")
+		} else {
+			c.wl("if (", plv, "==nil && ", prv, "!=nil) || (", plv, "!=nil && ", prv, "==nil) {return false}")
+		}
 		c.wl("if ", plv, "!=nil && ", prv, "!=nil {")
 	}
 
